@@ -212,6 +212,10 @@ def simp1(t):
         if op in ('Eq', 'NotEq', 'Is', 'IsNot') and ka is not None and kb is not None:
             eq = ka == kb
             return C(eq if op in ('Eq', 'Is') else not eq)
+        if op in ('Eq', 'NotEq', 'Is', 'IsNot') and (a == NONE or b == NONE):
+            other = b if a == NONE else a
+            if other[0] in ('tuple', 'list', 'dict', 'obj', 'lpvar', 'lpproblem', 'fstr', 'comp', 'cat', 'lambda', 'dictcomp', 'accum', 'upd'):
+                return C(op in ('NotEq', 'IsNot'))          # a constructed value is never None
         if op in ('Eq', 'Is') and a == b and a[0] != 'top':
             return None  # syntactically equal symbolic terms: leave (could be NaN-like); rules decide
         if op in CMPF and is_num(a) and is_num(b):
@@ -248,7 +252,8 @@ def simp1(t):
         if op == 'Add' and a[0] == 'const' and b[0] == 'const' and isinstance(a[1], str) and isinstance(b[1], str):
             return C(a[1] + b[1])
         return None
-    if k == 'idx' and t[1][0] == 'ite' and is_literal_seq(t[1][2]) and is_literal_seq(t[1][3]):
+    if k == 'idx' and t[1][0] == 'ite' and (is_literal_seq(t[1][2]) or t[1][2][0] == 'ite') and (is_literal_seq(t[1][3]) or t[1][3][0] == 'ite') \
+            and t[2][0] == 'const':
         return simp(('ite', t[1][1], ('idx', t[1][2], t[2]), ('idx', t[1][3], t[2])))
     if k == 'idx':
         b, i = t[1], t[2]
